@@ -8,11 +8,21 @@ namespace PyGql.Py
 
 /-- what a translated loop hands back: it ran to its end (or hit `break`) with the loop-carried variables `s`,
     or the enclosing function `return`ed `r`, or an exception of class `exc` was raised. -/
-inductive Flow (σ ρ : Type) where
+inductive Flow (ε σ ρ : Type) where
   | fall (s : σ)
   | ret (r : ρ)
-  | raise (exc : String)
+  | raise (exc : ε)
   deriving Repr, DecidableEq
+
+/-- an exception of a built-in (class name) seen through the caller's exception type -/
+def mapErr {ε α} (exc : String → ε) : Except String α → Except ε α
+  | .ok v => .ok v
+  | .error e => .error (exc e)
+
+/-- `d[key]` where `d` may be `None` (`TypeError`) -/
+def optGet {α} : Option α → Except String α
+  | none => .error "TypeError"
+  | some v => .ok v
 
 /-- `len(xs)` -/
 def len {α} (xs : List α) : Int := Int.ofNat xs.length
